@@ -226,6 +226,7 @@ void vs_reset(void)
   vs_sh->nrec = 0;
   vs_sh->dropped = 0;
   vs_sh->fidx[0] = vs_sh->fidx[1] = 0;
+  memset(vs_sh->fncount, 0, sizeof(vs_sh->fncount));
   vs_sh->nfaults = 0;
   vs_sh->child_loop = 0;
   vs_sh->child_last_probe = -1;
@@ -251,6 +252,7 @@ void vs_reset_light(void)
   vs_sh->nrec = 0;
   vs_sh->dropped = 0;
   vs_sh->fidx[0] = vs_sh->fidx[1] = 0;
+  memset(vs_sh->fncount, 0, sizeof(vs_sh->fncount));
   vs_sh->nfaults = 0;
   vs_sh->child_loop = 0;
   vs_sh->child_last_probe = -1;
@@ -350,9 +352,19 @@ static struct vs_fault *fault_point(int fn, int *fidx)
     return NULL;
   }
   int idx = (int) __atomic_fetch_add(&vs_sh->fidx[g_side], 1, __ATOMIC_SEQ_CST);
+  int ord = fn >= 0 && fn < 64 ? (int) __atomic_fetch_add(&vs_sh->fncount[g_side][fn], 1, __ATOMIC_SEQ_CST) : 0;
   *fidx = idx;
   for (int i = 0; i < vs_sh->nfaults; i++) {
     struct vs_fault *f = &vs_sh->faults[i];
+    // index < 0: "the (-index-1)-th call of this function on this side",
+    // whatever else the library calls before it in this configuration
+    if (f->index < 0) {
+      if (f->side == g_side && f->fn == fn && ord == -f->index - 1 && !f->fired) {
+        f->fired = 1;
+        return f;
+      }
+      continue;
+    }
     if (f->side == g_side && f->index == idx && !f->fired) {
       if (f->fn >= 0 && f->fn != fn) {
         f->mismatch = 1;
